@@ -33,5 +33,6 @@ git -C /repo checkout -- . && git -C /repo status --short | head -3
 echo "== done $name"
 # NOTE: the checks above rewrote /verif/evidence/<id>.json with a VIOLATION record of the patched tree.
 # Re-run every check listed on the command line on the clean tree before committing evidence:
+[ -n "${SEEDCHECK_NOCLEAN:-}" ] && { echo "== (clean-tree regeneration skipped: SEEDCHECK_NOCLEAN set; re-run the checks before committing evidence)"; exit 0; }
 echo "== regenerating evidence on the clean tree: $*"
 for c in "$@"; do (cd /verif && timeout 900 ./check $c 2>&1 | grep -E "VIOLATION|^OK" | head -2); done
